@@ -483,3 +483,111 @@ func init() {
 		s.Sweep("fir40", stride*251*257+1)
 	}
 }
+
+func init() {
+	extraOps["enumstring"] = func(s *exec.State, ev abs.V) { s.EnumStrings(ev["entry"].(string)) }
+	// formatting of everything constructible (C17): enum tables, REMB bitrates at every
+	// power of two and ten up to MaxFloat32, empty and maximal lists, unknown enum values
+	drivers["strings"] = func(s *exec.State, g *gen.G, n int) {
+		s.Reset()
+		for _, t := range []string{"PacketType", "SDESType", "BlockTypeType", "TTLorHopLimitType", "ChunkHi"} {
+			s.EnumStrings(t)
+		}
+		for e := 0; e < 255; e++ { // every power of two, and just below the next one
+			for _, f := range []int{0, 0x7FFFFF, 0x400000} {
+				s.Reset()
+				s.Build(1, abs.V{"k": "REMB", "sender": g.U32(), "br": abs.V{"s": 0, "e": e, "f": f}, "ssrcs": abs.L{}})
+				s.String(1)
+			}
+		}
+		p10 := float32(1)
+		for k := 0; k < 39; k++ { // every power of ten up to MaxFloat32
+			for _, x := range []float32{p10, p10 * 0.999, p10 * 9.99} {
+				s.Reset()
+				s.Build(1, abs.V{"k": "REMB", "sender": g.U32(), "br": abs.Float(x), "ssrcs": abs.L{}})
+				s.String(1)
+			}
+			p10 *= 10
+		}
+		for i := 0; i < n; i++ {
+			v := g.Any()
+			switch g.R.Intn(6) {
+			case 0: // out-of-range enum values and flags inside otherwise ordinary packets
+				v = abs.V{"k": "SDES", "chunks": abs.L{abs.V{"src": g.U32(), "items": abs.L{abs.V{"t": g.U8(), "text": g.Bytes(g.Int(0, 300))}}}}}
+			case 1:
+				b := g.XRBlock()
+				if b["bt"] == "ss" {
+					b["toh"] = g.U8()
+				}
+				if b["bt"] == "unk" {
+					b["bytes"] = g.Bytes(g.Int(0, 9))
+				}
+				v = abs.V{"k": "XR", "sender": g.U32(), "blocks": abs.L{b}}
+			case 2:
+				v = abs.V{"k": "RAW", "bytes": g.Bytes(g.Int(0, 12))}
+			case 3:
+				k := g.Pick(1, 3, 8)
+				pk := make(abs.L, k)
+				for j := range pk {
+					pk[j] = g.Any()
+				}
+				v = abs.V{"k": "CP", "pkts": pk}
+			}
+			s.Reset()
+			s.Build(1, v)
+			s.String(1)
+			s.String(1)
+		}
+	}
+}
+
+// scriptProg: a call history generated by TLC (Mc.tla, mode hist) on one value (C18).
+func scriptProg(s *exec.State, v abs.V, ops []any) {
+	kind := v["k"].(string)
+	s.Reset()
+	s.Build(1, v)
+	for _, o := range ops {
+		switch o.(string) {
+		case "marshal1":
+			s.Marshal(1)
+		case "size1":
+			s.Size(1)
+		case "dest1":
+			s.Dest(1)
+		case "string1":
+			s.String(1)
+		case "unmarshal12":
+			s.Unmarshal(kind, 1, 2)
+		case "datagram13":
+			s.Datagram(1, 3)
+		case "marshal2":
+			if has(s, 2) {
+				s.Marshal(2)
+			}
+		case "dest2":
+			if has(s, 2) {
+				s.Dest(2)
+			}
+		case "marshal3":
+			if has(s, 3) {
+				s.Marshal(3)
+			}
+		}
+	}
+}
+
+func init() {
+	extraScripts["prog"] = func(s *exec.State, rec abs.V) { scriptProg(s, rec["v"].(abs.V), abs.List(rec["ops"])) }
+	// random longer histories with repeated calls (C18)
+	drivers["histrand"] = func(s *exec.State, g *gen.G, n int) {
+		names := []string{"marshal1", "size1", "dest1", "string1", "unmarshal12", "datagram13", "marshal2", "dest2", "marshal3"}
+		for i := 0; i < n; i++ {
+			k := g.Int(4, 12)
+			ops := make([]any, k)
+			for j := range ops {
+				ops[j] = names[g.R.Intn(len(names))]
+			}
+			scriptProg(s, g.Any(), ops)
+		}
+	}
+}
